@@ -42,7 +42,7 @@ LEVEL_TEXT = (
 LEVEL_NOTE = "Trusted: the reference evaluator (workloads/gen.py: expected), simkit scheduler; distributed runs use 3 slots so that sub-task waiting never starves (C09 owns slot exhaustion). Exceptions are compared by type and args."
 MINIMIZE = None
 RULE = (
-    "one run = program (depth <= 2, fan-out <= 2, failures on attempts 1..k with retriable / non-retriable kinds, groups) x flavour "
+    "one run = program (depth <= 2, fan-out <= 2, failures on attempts 1..k with retriable / non-retriable kinds incl. strict subclasses of the retriable classes, groups) x flavour "
     "(plain / direct / direct-parallel) x max_retries in 0..2 x retry_for x schedule (rand / pct) x fault (none / one worker stall at its K-th yield / slow hand-over: a short stall before every effect inside one hand-over operation); non-trivial = the program has a failing node or a sub-task; "
     "distinct = hash of (program, options)."
 )
@@ -67,7 +67,7 @@ def warmup() -> None:
 
 
 def _retriable_kinds(retry_for: str) -> tuple[str, ...]:
-    return ("retry", "retriable") if retry_for == "retriable" else ("retry",)
+    return ("retry", "retry-sub", "retriable", "retriable-sub") if retry_for == "retriable" else ("retry", "retry-sub")
 
 
 def _options(max_retries: int, retry_for: str) -> dict:
@@ -232,7 +232,7 @@ def run(seed: int, params: dict, replay: dict | None = None) -> dict:
     max_retries = rng.choice([0, 1, 2])
     retry_for = rng.choice(["default", "retriable"])
     names = gen.Names()
-    excs = ("retry", "retriable", "sim", "value")
+    excs = ("retry", "retriable", "sim", "value", "retry-sub", "retriable-sub")
     if flavour == "dsum":
         spec = {"n": names.next(), "v": 0, "kids": [gen.gen_prog(rng, names, depth=0, p_fail=0.35, excs=excs) for _ in range(rng.randint(1, 3))]}
     elif flavour == "direct":
@@ -242,7 +242,7 @@ def run(seed: int, params: dict, replay: dict | None = None) -> dict:
     elif rng.random() < 0.4:
         # retry-heavy variant: small programs, most nodes fail more often than max_retries allows
         max_retries = rng.choice([1, 1, 2])
-        spec = gen.gen_prog(rng, names, depth=1, p_fail=0.7, max_fail=3, excs=("retry", "retry", "retriable", "sim"), two_tasks=True)
+        spec = gen.gen_prog(rng, names, depth=1, p_fail=0.7, max_fail=3, excs=("retry", "retry", "retriable", "sim", "retry-sub", "retriable-sub"), two_tasks=True)
     else:
         spec = gen.gen_prog(rng, names, depth=2, p_fail=0.3, excs=excs, two_tasks=True)
     opts = _options(max_retries, retry_for)
